@@ -354,6 +354,19 @@ def _references_complete(ck, w):
             problems.append("bands opened do not come from the band_ids parameter")
     else:
         problems.append("no Band::open")
+    # the hunks read are the hunks PRESENT in the band's index directory: a count recorded in the tail is absent
+    # for an interrupted band and for bands written before 0.6.4, and would make such a kept band reference nothing
+    rh = rules.creators_of(rb, "index::IndexRead::read_hunk")
+    if not rh:
+        problems.append("no read_hunk in referenced_blocks")
+    for e in rh:
+        hsrc = flow.origins_x(lib, rb, e.args[1], through_calls=[r"Iterator>::next$", r"IntoIterator>?::into_iter$", r"Try>?::branch$"])
+        hc = flow.origin_calls(hsrc)
+        if "index::IndexRead::hunks_available" not in hc:
+            problems.append("hunk numbers read do not come from the listing of the index directory (hunks_available)")
+        elif [c for c in hc if c.startswith("band::Band::get_info") or c.endswith("Band::index_hunk_count")] or \
+                any(x[0] == "arith" for x in hsrc):
+            problems.append("hunk numbers read also depend on recorded metadata or arithmetic")
     if problems:
         for m in sorted(set(problems)):
             ck.fail(o, REFD, m, m)
